@@ -3,6 +3,7 @@
 # Confirms a sub-agent's seeded change in its scratch worktree (demo fails with / passes without, pinned
 # suite modules pass with it), stores it under /verif/seeded/<wt-id>/, runs our check against it in /repo
 # (apply -> check -> revert) and records everything in meta.json. Finally removes the worktree.
+mkdir -p /verif/run; exec 9>/verif/run/.repo.lock; flock -x 9; export VERIF_LOCK_HELD=1   # /repo is modified below: keep concurrent check builds out
 set -u
 id=$1; prop=$2; mods=$3; needs=${4:-}
 wt=/tmp/wt/$id; out=/verif/seeded/$id
